@@ -56,11 +56,19 @@ var c07Paths = []string{"registry", "jsonTop", "jsonNested", "jsonList", "jsonIt
 
 // … and the value nested under each item-valued property of an object, in both codecs (a property whose
 // reader or decoder assumes the common representation of its values)
+// … and the value as the only member of a list position, in the compacted JSON-LD spelling of a one-member list
+// (the bare member instead of a one-element array): field, the type of the holder, the term
+var c07CompactLists = [][3]string{{"Items", "Collection", "items"}, {"OrderedItems", "OrderedCollection", "orderedItems"}, {"Tag", "Note", "tag"},
+	{"CC", "Note", "cc"}, {"Audience", "Create", "audience"}, {"Streams", "Person", "streams"}}
+
 var c07ObjectItemFields = [][2]string{{"Attachment", "attachment"}, {"AttributedTo", "attributedTo"}, {"Context", "context"}, {"Generator", "generator"},
 	{"Icon", "icon"}, {"Image", "image"}, {"InReplyTo", "inReplyTo"}, {"Location", "location"}, {"Preview", "preview"}, {"Replies", "replies"},
 	{"URL", "url"}, {"Likes", "likes"}, {"Shares", "shares"}}
 
 func init() {
+	for _, f := range c07CompactLists {
+		c07Paths = append(c07Paths, "jsonCompact:"+f[0])
+	}
 	for _, f := range c07ObjectItemFields {
 		c07Paths = append(c07Paths, "jsonField:"+f[0], "gobField:"+f[0])
 	}
@@ -184,6 +192,24 @@ func c07Run(cell c07Cell) (goType string, idOK, markerOK bool, it ap.Item, pan s
 				}
 			case "field":
 			default:
+			}
+			if strings.HasPrefix(cell.Via, "jsonCompact:") {
+				for _, f := range c07CompactLists {
+					if f[0] != cell.Via[len("jsonCompact:"):] {
+						continue
+					}
+					outer, _ := ap.UnmarshalJSON([]byte(`{"id":"https://example.com/outer","type":"` + f[1] + `","` + f[2] + `":` + doc + `}`))
+					if outer == nil {
+						break
+					}
+					if rv := reflect.ValueOf(outer); rv.Kind() == reflect.Ptr && rv.Elem().Kind() == reflect.Struct {
+						if l, ok := rv.Elem().FieldByName(f[0]).Interface().(ap.ItemCollection); ok && len(l) == 1 {
+							it = l[0]
+						} else if ok && len(l) > 1 {
+							it = l // more members than were written: reported as the list itself
+						}
+					}
+				}
 			}
 			if strings.HasPrefix(cell.Via, "jsonField:") || strings.HasPrefix(cell.Via, "gobField:") {
 				field := cell.Via[strings.Index(cell.Via, ":")+1:]
@@ -346,6 +372,10 @@ func c07Judge(e *vocabEntry, cell c07Cell, goType string, idOK, markerOK bool, i
 		// a name outside the vocabulary: never a value of a wrong vocabulary type. Nothing, or an untyped *Object.
 		if goType != "nothing" && goType != "*Object" {
 			return fmt.Sprintf("the unknown name %q produced a %s", cell.Name, goType)
+		}
+		// … and without the extension hooks nothing at all (an error or no value), wherever the value stands
+		if !cell.Hooks && goType != "nothing" && cell.Via != "registry" { // the registry answers with an error next to its default value
+			return fmt.Sprintf("the unknown name %q via %s produced a %s although no extension hook is installed", cell.Name, cell.Via, goType)
 		}
 		return ""
 	}
